@@ -51,6 +51,9 @@ def check_effects(project: Project, rep):
             targets.append(project.functions[q])
         else:
             raise AnalysisError(f"AR-EFFECT: {q} not found")
+    # AR-FLAGS: an operator may protect its operands' arrays while it reads them, but gives them back as they were
+    from .c19 import check_pu_flags
+    check_pu_flags(project, oa, rep, targets, rule="AR-FLAGS", include_self=True)
     n = 0
     for fi in targets:
         rep.analysed(fi)
@@ -450,9 +453,26 @@ def check_pad_snap(project: Project, rep):
                     other = b if missing == a else a
                     apps = [c for s in n.body for c in ast.walk(s) if isinstance(c, ast.Call) and isinstance(c.func, ast.Attribute)
                             and c.func.attr == "append"]
-                    if apps and ast.unparse(apps[0].args[0]) == other:
+                    def _plain(e):
+                        # a copy of the depth is the depth: deepcopy(x), copy(x), list(x), x.copy(), x[:]
+                        while True:
+                            if isinstance(e, ast.Call) and len(e.args) == 1 and not e.keywords and isinstance(e.func, (ast.Name, ast.Attribute)) \
+                                    and (e.func.attr if isinstance(e.func, ast.Attribute) else e.func.id) in ("deepcopy", "copy", "list"):
+                                e = e.args[0]
+                            elif isinstance(e, ast.Call) and not e.args and isinstance(e.func, ast.Attribute) and e.func.attr == "copy":
+                                e = e.func.value
+                            elif isinstance(e, ast.Subscript) and isinstance(e.slice, ast.Slice) and e.slice.lower is None \
+                                    and e.slice.upper is None and e.slice.step is None:
+                                e = e.value
+                            else:
+                                return ast.unparse(e)
+                    if apps and _plain(apps[0].args[0]) == other:
                         rep.discharged("AR-PAD", uc, n, f"when `{missing}` has no such depth the other operand's depth `{other}` is "
                                                         f"taken unchanged (missing depth = zero function)")
+                    elif apps and sem.get("crit") == "ok":
+                        rep.discharged("AR-PAD", uc, n, f"when `{missing}` has no such depth `{ast.unparse(apps[0].args[0])[:40]}` is taken: "
+                                                        f"decided on the evaluated result (the other operand's depth, unchanged)",
+                                       nontrivial=False)
                     elif apps:
                         good = False
                         rep.refuted("AR-PAD", uc, n, f"when `{missing}` is missing, `{ast.unparse(apps[0].args[0])}` is appended instead "
